@@ -62,9 +62,28 @@ CHECKS.update({
             G_NOTE, "compile-time trait assertions + runtime spawn on generated clients"),
 })
 
+CHECKS.update({
+    "C07": ("exploration", "G",
+            "For generated WSDLs with restricted simple types at every kind of position, request envelopes with exactly one violating value per reachable (position, facet) and boundary-valid envelopes are checked with check_restrictions(None) and sent through the generated client against a listener that counts accepted connections: a violating request must fail with SoapError::Restriction and open no connection, a valid one must be sent.",
+            G_NOTE, "runtime monitor of check results and accepted connections under enumerated single-violation samples"),
+    "C08": ("exploration", "G",
+            "Generated extension forests: the member list and typed probe of every derived struct must be base members first (base order), then own elements, then own attributes; serialized values of derived types must carry inherited members in the declaring schema's namespace.",
+            G_NOTE, "reference-mapping oracle + typed probe + wire monitor restricted to derived types"),
+    "C09": ("exploration", "G",
+            "Generated schema sets that reuse six words for types, elements, local elements, attributes, messages and parts across namespaces, with prefixes rebound per file: the typed probe, the wire namespaces and the envelope elements must show that every reference reached the component of the right namespace and kind.",
+            G_NOTE, "typed probe + wire/envelope monitors on deliberately name-colliding programs"),
+    "C10": ("exploration", "G",
+            "Generated sets over an adversarial URI pool: the emitted file's namespaces/prefix/module attributes (parsed with syn) must be injective both ways, one module per namespace, every member prefix bound to the declaring schema's URI; the file must compile and one value per struct must serialize namespace-well-formed.",
+            G_NOTE, "static monitor over emitted attributes (syn) + compile + wire prefix bindings"),
+    "C14": ("exploration", "G",
+            "Keyword x naming-position and payload x text-position matrices on a hand-built WSDL program: the output must parse (syn) and compile (rustc), components must survive, the identifier set must equal the payload-free baseline, and enumeration/namespace literals must evaluate to the original text. Thorough enumerates both matrices completely.",
+            "rustc is the authority on identifier legality; a generator error on a payload input is acceptable, a crash is not.",
+            "token-census monitor (syn) + rustc over exhaustively enumerated keyword and payload matrices"),
+})
+
 PENDING = {
     p: "check under construction in this round (engine G not yet built); see DESIGN.md §9 construction order"
-    for p in ["C07", "C08", "C09", "C10", "C14"]
+    for p in []
 }
 
 
